@@ -436,6 +436,28 @@ fn exec_aio(sc: &Scenario) -> Report {
                             model = model.wrapping_add(n as u64);
                         }
                     }
+                    "poll_write_vectored" => {
+                        let a: Vec<u8> = vec![3u8; op.n0() as usize];
+                        let b: Vec<u8> = vec![4u8; op.n1() as usize];
+                        let bufs = [IoSlice::new(&a), IoSlice::new(&b)];
+                        let (v1, v2) = (tokio::io::AsyncWrite::is_write_vectored(&w), tokio::io::AsyncWrite::is_write_vectored(&t));
+                        if v1 != v2 {
+                            return Err(format!("is_write_vectored: wrapped {v1} vs twin {v2}"));
+                        }
+                        let r1 = Pin::new(&mut w).poll_write_vectored(&mut cx, &bufs);
+                        let r2 = Pin::new(&mut t).poll_write_vectored(&mut cx, &bufs);
+                        let same = match (&r1, &r2) {
+                            (Poll::Pending, Poll::Pending) => true,
+                            (Poll::Ready(a), Poll::Ready(b)) => kind_of(a) == kind_of(b) && a.as_ref().ok() == b.as_ref().ok(),
+                            _ => false,
+                        };
+                        if !same {
+                            return Err(format!("poll_write_vectored: wrapped {r1:?} vs twin {r2:?}"));
+                        }
+                        if let Poll::Ready(Ok(n)) = r2 {
+                            model = model.wrapping_add(n as u64);
+                        }
+                    }
                     "poll_flush" | "poll_shutdown" => {
                         let (r1, r2) = if op.k == "poll_flush" {
                             (Pin::new(&mut w).poll_flush(&mut cx), Pin::new(&mut t).poll_flush(&mut cx))
@@ -452,12 +474,12 @@ fn exec_aio(sc: &Scenario) -> Report {
                         }
                     }
                     "aseek" => {
-                        // transparency only: position tracking of AsyncSeek is not stated
                         let f = SeekFrom::Start(op.n0());
                         let (s1, s2) = (Pin::new(&mut w).start_seek(f), Pin::new(&mut t).start_seek(f));
                         if kind_of(&s1) != kind_of(&s2) {
                             return Err(format!("start_seek: wrapped {s1:?} vs twin {s2:?}"));
                         }
+                        let mut seek_done = false;
                         for _ in 0..5 {
                             let r1 = Pin::new(&mut w).poll_complete(&mut cx);
                             let r2 = Pin::new(&mut t).poll_complete(&mut cx);
@@ -470,12 +492,13 @@ fn exec_aio(sc: &Scenario) -> Report {
                                 return Err(format!("poll_complete: wrapped {r1:?} vs twin {r2:?}"));
                             }
                             if r2.is_ready() {
+                                seek_done = matches!(r2, Poll::Ready(Ok(_)));
                                 break;
                             }
                         }
                         last_fill = 0;
-                        // whatever the wrapper did with the position on a seek is accepted
-                        model = pb.position();
+                        // a seek sets the position to the new offset
+                        model = if seek_done { t.pos as u64 } else { pb.position() };
                     }
                     "advance" => verif_simrt::sched::advance_quiet(op.n0()),
                     other => return Err(format!("HARNESS unknown op {other}")),
@@ -517,6 +540,7 @@ fn exec_aio(sc: &Scenario) -> Report {
             ("ewouldblock", s.err_wouldblock),
             ("eio", s.err_other),
             ("poll_pending", s.pending),
+            ("partial_read_then_error", s.partial_then_error),
         ] {
             if v > 0 {
                 *r.faults.entry(k.to_string()).or_insert(0) += v;
@@ -559,6 +583,11 @@ fn exec_iter(sc: &Scenario) -> Report {
                     verif_simrt::sched::advance_quiet(op.n0());
                     continue;
                 }
+                let (h1, h2) = (futures_core::Stream::size_hint(&w), futures_core::Stream::size_hint(&t));
+                if h1 != h2 {
+                    r.violate("C17.transparency", format!("{at}: size_hint of the wrapped stream {h1:?} vs the stream itself {h2:?}"));
+                    break;
+                }
                 let step = call(|| (Pin::new(&mut w).poll_next(&mut cx), Pin::new(&mut t).poll_next(&mut cx)));
                 match step {
                     Err(p) => {
@@ -595,7 +624,22 @@ fn exec_iter(sc: &Scenario) -> Report {
             drop(w);
             return r;
         }
+        // optionally the bar has been used before: moved and abandoned (a second pass over the
+        // same bar); wrapping it changes nothing, items keep counting from where it stands, and an
+        // already finished bar is not finished a second time
+        let pre_fin = sc.c("pre_finished") == 1;
+        if pre_fin {
+            pb.set_position(3);
+            pb.abandon();
+            model = 3;
+        }
         let mut w = if sc.c("ctor") == 1 { pb.wrap_iter(SimItems::new(sc.seed, n, 0)) } else { SimItems::new(sc.seed, n, 0).progress_with(pb.clone()) };
+        if pre_fin {
+            check_pos(&mut r, &pb, model, 0, "wrapping an already finished bar");
+            if !pb.is_finished() {
+                r.violate("C17.position", "wrapping an already finished bar made it unfinished".to_string());
+            }
+        }
         let mut t = SimItems::new(sc.seed, n, 0);
         for (i, op) in ops.iter().enumerate() {
             let at = format!("op#{i} {}", op.short());
@@ -661,13 +705,15 @@ fn exec_iter(sc: &Scenario) -> Report {
                     }
                     if hit_end && !exhausted {
                         exhausted = true;
-                        model = expected_after_exhaustion(&sc, model);
+                        if !pre_fin {
+                            model = expected_after_exhaustion(&sc, model);
+                        }
                         r.probe("exhausted");
                     }
                 }
             }
             check_pos(&mut r, &pb, model, 0, &at);
-            if pb.is_finished() != exhausted {
+            if pb.is_finished() != (exhausted || pre_fin) {
                 r.violate("C17.finish_on_exhaustion", format!("{at}: is_finished() = {} but iterator exhausted = {exhausted}", pb.is_finished()));
             }
             if r.violation.is_some() {
@@ -704,7 +750,9 @@ fn exec_iter(sc: &Scenario) -> Report {
                 Ok(Ok(())) => {
                     if !exhausted {
                         model += rest;
-                        model = expected_after_exhaustion(&sc, model);
+                        if !pre_fin {
+                            model = expected_after_exhaustion(&sc, model);
+                        }
                     }
                     check_pos(&mut r, &pb, model, 0, &at);
                     if !pb.is_finished() {
@@ -1033,7 +1081,16 @@ fn exec_rayon(sc: &Scenario) -> Report {
             items: items.clone(),
             drv: drv.clone(),
         };
+        let inner_hint = (ParallelIterator::opt_len(&base), IndexedParallelIterator::len(&base));
         let wrapped = base.progress_with(pb.clone());
+        let outer_hint = (ParallelIterator::opt_len(&wrapped), IndexedParallelIterator::len(&wrapped));
+        if inner_hint != outer_hint {
+            r.violate(
+                "C17.transparency",
+                format!("(opt_len, len) of the wrapped parallel iterator = {outer_hint:?}, of the iterator itself = {inner_hint:?}"),
+            );
+            return r;
+        }
         let path = sc.c("path");
         let seen = Arc::new(std::sync::atomic::AtomicU64::new(0));
         let full_after = if sc.c("full_after") > 0 { sc.c("full_after") } else { u64::MAX };
@@ -1141,7 +1198,7 @@ impl Check for C17 {
         "C17"
     }
     fn rule_text(&self) -> String {
-        "modes io (Read/read_vectored/read_exact/read_to_string/read_to_end/BufRead fill_buf+consume/Write/write_vectored/flush/Seek/stream_position, and the provided methods write_all/read_until/bytes()/io::copy/rewind/seek_relative; wrapper built by wrap_read or wrap_write), aio (tokio poll_read/poll_fill_buf/consume/poll_write/poll_flush/poll_shutdown/AsyncSeek, hand polled), stream (poll_next), iter (next/next_back/len/size_hint and the provided methods nth/nth_back/take().count()/rev()/last/fold/find; built by progress_with or wrap_iter; exhaustion and cancellation), rayon (drive, with_producer, drive_unindexed through a seeded split driver, leaves on simulated threads). 1..40 PRNG calls per run against a simulated source/sink whose every call draws full/short/EINTR/EAGAIN/EIO/Pending/EOF from its own PRNG; the unwrapped twin gets the same plan and call sequence; results, buffers, error kinds and Poll states must be equal call by call and position() must equal the bytes/items actually transferred (seek: new offset; read_exact/read_to_string errors: anywhere up to the bytes the source delivered). Non-trivial: io/aio = >= 2 calls and at least one injected short transfer/error/Pending/EOF; iter/stream = >= 2 calls; rayon = at least one split. Distinct = distinct scenario hash.".into()
+        "modes io (Read/read_vectored/read_exact/read_to_string/read_to_end/BufRead fill_buf+consume/Write/write_vectored/flush/Seek/stream_position, and the provided methods write_all/read_until/bytes()/io::copy/rewind/seek_relative; wrapper built by wrap_read or wrap_write), aio (tokio poll_read/poll_fill_buf/consume/poll_write/poll_write_vectored + is_write_vectored/poll_flush/poll_shutdown/AsyncSeek, hand polled), stream (poll_next, size_hint), iter (next/next_back/len/size_hint and the provided methods nth/nth_back/take().count()/rev()/last/fold/find; built by progress_with or wrap_iter; exhaustion and cancellation), rayon (drive, with_producer, drive_unindexed through a seeded split driver, leaves on simulated threads). 1..40 PRNG calls per run against a simulated source/sink whose every call draws full/short/EINTR/EAGAIN/EIO/Pending/EOF from its own PRNG; the unwrapped twin gets the same plan and call sequence; results, buffers, error kinds and Poll states must be equal call by call and position() must equal the bytes/items actually transferred (seek: new offset; read_exact/read_to_string errors: anywhere up to the bytes the source delivered). Non-trivial: io/aio = >= 2 calls and at least one injected short transfer/error/Pending/EOF; iter/stream = >= 2 calls; rayon = at least one split. Distinct = distinct scenario hash.".into()
     }
     fn assumptions(&self) -> Vec<String> {
         vec![
@@ -1242,7 +1299,8 @@ impl Check for C17 {
                 let mut ops = vec![];
                 for _ in 0..n {
                     let cap = *rng.pick(&[0u64, 1, 2, 5, 16, 33]);
-                    ops.push(match rng.weighted(&[8, 8, 8, 6, 2, 1, 2, 1]) {
+                    ops.push(match rng.weighted(&[8, 8, 8, 6, 2, 1, 2, 1, 3]) {
+                        8 => Op::new("poll_write_vectored").n(cap).n(rng.below(7)),
                         0 => Op::new("poll_read").n(cap).n(rng.below(4)),
                         1 => Op::new("poll_fill_buf"),
                         2 => Op::new("aconsume").n(rng.below(20)),
@@ -1262,6 +1320,9 @@ impl Check for C17 {
                 sc.set("p_pending", *rng.pick(&[0, 300]));
                 if mode == "iter" && rng.chance(1, 3) {
                     sc.set("consume_by_value", rng.range(1, 4));
+                }
+                if mode == "iter" && rng.chance(1, 6) {
+                    sc.set("pre_finished", 1);
                 }
                 let mut ops = vec![];
                 for _ in 0..rng.range(1, items + 4) {
@@ -1320,6 +1381,7 @@ impl Check for C17 {
             ("full_after", 0),
             ("n_items", 0),
             ("consume_by_value", 0),
+            ("pre_finished", 0),
             ("use_threads", 0),
             ("data_len", 0),
             ("now_jitter_ns", 0),
